@@ -65,7 +65,9 @@ def uuid_persist(ctx):
     ctx.ob(R, 'UuidMap.__getitem__|existing-key-returns-saved-guid', ok,
            gi.node, 'the GUID saved for a key is not what a lookup returns')
     ok = any(has(t, 'self', '_map') and has_call(v_, 'uuid4')
-             for t, v_, n in F.stores(gi))
+             for t, v_, n in F.stores(gi)) or any(
+        has(e.recv(), 'self', '_map') and has_call(e.arg(1), 'uuid4')
+        for e in F.effects(gi, lambda e: e.name == 'setdefault', depth=1))
     ctx.ob(R, 'UuidMap.__getitem__|stores-new', ok, gi.node,
            'a newly drawn GUID is not stored in the map')
     ok = F.must(gi, lambda e: e.name == 'add' and has(
